@@ -94,6 +94,69 @@ def oracle(raw):
         if m.group(3) != '1': return 'handle %s of thread %s still polls false after %s further complete worker cycles' % (m.group(2), m.group(1), m.group(4))
     return None
 
+def e2e_oracle(raw):
+    """real poll code on the real call_rcu helper and the real grace period (scen_callrcu, ops S / P): a poll that answers true while a reader that was inside
+    when the handle was requested is still inside the same section; and a poll answering false after one that answered true for the same handle"""
+    import gp_common as G
+    ev = G.events(raw)
+    if 'DEADLOCK' in raw: return 'stuck state'
+    depth = {}; open_ = {}; sections = []; starts = {}; polls = []
+    for i, p in enumerate(ev):
+        t, k = p[0], p[1]
+        if k == 'ret' and p[2] == 'lock':
+            depth[t] = depth.get(t, 0) + 1
+            if depth[t] == 1: open_[t] = i
+        elif k == 'call' and p[2] == 'unlock':
+            if depth.get(t, 0) == 1 and t in open_: sections.append((t, open_.pop(t), i))
+            depth[t] = depth.get(t, 0) - 1
+        elif k == 'call' and p[2] == 'start': starts[(t, p[3])] = i
+        elif k == 'call' and p[2] == 'poll': polls.append([t, p[3], i, None])
+        elif k == 'ret' and p[2] == 'poll':
+            for q in reversed(polls):
+                if q[0] == t and q[3] is None: q[3] = (i, p[3]); break
+    for t, a in open_.items(): sections.append((t, a, 10 ** 9))
+    seen_true = set()
+    for t, h, ci, r in polls:
+        if r is None or (t, h) not in starts: continue
+        ri, val = r
+        if val == '1':
+            seen_true.add((t, h))
+            for (rt, a, b) in sections:
+                if a < starts[(t, h)] and ri < b:
+                    return 'poll_state_synchronize_rcu() of thread %s answered true at step %d while reader %s is still inside the section it entered at step %d, before start_poll_synchronize_rcu() was called at step %d' % (t, ri, rt, a, starts[(t, h)])
+        elif (t, h) in seen_true: return 'handle %s of thread %s polled false after having polled true' % (h, t)
+    return None
+
+E2E_PROGS = ['C0/()/SPPP', 'C0C1/(())/SPSPP']
+def run_e2e(ctx):
+    """(d) the abstraction of call_rcu used by scen_poll is not trusted alone: the same poll code runs on the real helper thread of src/urcu-call-rcu-impl.h and the
+    real memb grace period.  Targeted family: the helper is frozen k steps into its cycle for an unrelated callback (before, inside and after its synchronize_rcu());
+    then a reader enters, a handle is requested, the helper runs m more steps, and the handle is polled with the reader still inside."""
+    import callrcu_common as CR
+    impl = CR.build(ctx)
+    if not impl: return
+    cases = []
+    for prog in E2E_PROGS[:1 if ctx.quick() else 2]:
+        for k in range(0, 240 if ctx.quick() else 400, 2 if ctx.quick() else 1):
+            for m in (60, 200):
+                cases.append((prog, '>0' + '3d' * k + '>1' + '>2' + '3d' * m + '>2' + '3d' * 200 + '>2' + '>1' + '3d' * 500 + '>2'))
+    n = len(cases) + (60 if ctx.quick() else 1500)
+    while len(cases) < n:
+        prog = ctx.rng.choice(E2E_PROGS); th = [str(i) for i in range(prog.count('/') + 3)]
+        cases.append((prog, bursty(ctx.rng, th, lo=60, hi=600, flush=ctx.rng.choice([0.05, 0.3]), means=(1, 3, 10, 30, 80))))
+    tail = ''.join(chr(ord('a') + i) + str(i) for i in range(6)) * 500
+    rs = run_many([[impl, p, s + tail] for p, s in cases], timeout=30)
+    nor = 0; early = 0; distinct = set()
+    for (p, s), (rc, raw) in zip(cases, rs):
+        o = ('abnormal run: ' + raw[-300:]) if ('BUG ' in raw or 'TIMEOUT' in raw or 'ABORT' in raw or 'STEP LIMIT' in raw) else e2e_oracle(raw)
+        if o:
+            nor += 1
+            if nor <= 3: ctx.fail('oracle', 'poll on the real call_rcu helper: no early completion', o, concrete={'scenario': 'scen_callrcu', 'prog': p, 'schedule': s + tail, 'verdict': o})
+        if re.search(r'ret poll 1', raw) and re.search(r'ret poll 0', raw): distinct.add(hash(raw))
+    ctx.cov['evaluations'] += len(cases); ctx.cov['distinct_nontrivial'] += len(distinct)
+    ctx.cov['oracle_violations'] = ctx.cov.get('oracle_violations', 0) + nor
+    ctx.cov['input_distribution']['scen_callrcu (real helper, ops S/P)'] = {'cases': len(cases), 'programs': E2E_PROGS, 'both_answers_seen': len(distinct)}
+
 def run(ctx):
     ctx.cov['source_hash'] = source_hash(FILES)
     prove(ctx)
@@ -167,6 +230,7 @@ def run(ctx):
         ctx.cov['evaluations'] += len(cases); ctx.cov['distinct_nontrivial'] += len(distinct)
         ctx.cov['disagreements'] = ndis; ctx.cov['oracle_violations'] = nor
         ctx.cov['input_distribution']['scen_poll'] = {'cases': len(cases), 'programs': PROGS, 'start_counters': C0S}
+    run_e2e(ctx)
     return finish(ctx, trusted=TRUSTED, rule='sequential: PRNG op sequences (start_poll / poll recent or old handle / run worker / dump) from counters near 0, 2^63, 2^64 and random; '
                   'concurrent: parking sweeps (step and operation level) + bursty schedules over 2-3 pollers and the helper; distinct = distinct (program, action results)')
 
